@@ -42,6 +42,12 @@ static const char* FNAME = "D";
 #elif C01_FIELD == 2
 using K = std::complex<double>;
 static const char* FNAME = "C";
+#elif C01_FIELD == 3
+using K = long;                      // thorough tier: a 64-bit integer field type
+static const char* FNAME = "L";
+#elif C01_FIELD == 4
+using K = float;                     // thorough tier: single precision holding small integers (exact below 2^24)
+static const char* FNAME = "S";
 #else
 using K = GFp<C01_FIELD>;
 static const std::string FNAME_S = "F" + std::to_string(C01_FIELD);
@@ -57,11 +63,15 @@ static std::string showReal(double v)
 }
 static std::string showK(int v) { return std::to_string(v); }
 static std::string showK(double v) { return showReal(v); }
+static std::string showK(long v) { return std::to_string(v); }
+static std::string showK(float v) { return showReal((double)v); }
 static std::string showK(const std::complex<double>& v) { return showReal(v.real()) + ":" + showReal(v.imag()); }
 template<int P> static std::string showK(const GFp<P>& v) { return std::to_string(v.v); }
 
 static void parseK(const std::string& s, int& k) { k = std::stoi(s); }
 static void parseK(const std::string& s, double& k) { k = (double)std::stoll(s); }
+static void parseK(const std::string& s, long& k) { k = std::stol(s); }
+static void parseK(const std::string& s, float& k) { k = (float)std::stoll(s); }
 static void parseK(const std::string& s, std::complex<double>& k)
 {
   auto p = s.find(':');
@@ -140,6 +150,17 @@ template<class M, class X, class Y> static void callT(const std::string& op, con
 // A: r x c matrix object of any representation, already loaded; vectors static (FV) or dynamic (DV)
 template<int r, int c, class M> static std::string kernelOn(const Case& cs, const M& A, const K& alpha, Cur& cu)
 {
+  if (cs.rep2 == "FD" || cs.rep2 == "DF") {      // x and y of different vector classes
+    const bool n = nkind(cs.op); const int xs = n ? c : r, ys = n ? r : c;
+    if (cs.rep2 == "FD") {
+      DV y(ys);
+      if (n) { FV<c> x; loadV(x, xs, cu); loadV(y, ys, cu); callN(cs.op, A, alpha, x, y); return obs(show(y), show(A), show(x)); }
+      FV<r> x; loadV(x, xs, cu); loadV(y, ys, cu); callT(cs.op, A, alpha, x, y); return obs(show(y), show(A), show(x));
+    }
+    DV x(xs); loadV(x, xs, cu);
+    if (n) { FV<r> y; loadV(y, ys, cu); callN(cs.op, A, alpha, x, y); return obs(show(y), show(A), show(x)); }
+    FV<c> y; loadV(y, ys, cu); callT(cs.op, A, alpha, x, y); return obs(show(y), show(A), show(x));
+  }
   if (nkind(cs.op)) {
     if (cs.rep2 == "DV") { DV x(c), y(r); loadV(x, c, cu); loadV(y, r, cu); callN(cs.op, A, alpha, x, y); return obs(show(y), show(A), show(x)); }
     FV<c> x; FV<r> y; loadV(x, c, cu); loadV(y, r, cu); callN(cs.op, A, alpha, x, y); return obs(show(y), show(A), show(x));
